@@ -573,7 +573,11 @@ impl World {
                 }
             })
             .collect();
-        let xprv = self.xprv_at(&origin_path);
+        let mut xprv = self.xprv_at(&origin_path);
+        // one key in six is written with the testnet version bytes (tpub / tprv): same key material
+        if rng.chance(1, 6) {
+            xprv.network = bitcoin::NetworkKind::Test;
+        }
         let xpub = Xpub::from_priv(&self.secp, &xprv);
         let has_origin = n_origin > 0 || rng.chance(1, 4);
         let fp = self.xpub.fingerprint();
